@@ -90,8 +90,12 @@ func main() {
 
 func runOps(t *gen.Trace, r *gen.R, nops int) {
 	w, o, n, s := boot()
-	now := o.GenesisTime.Add(time.Minute)
-	emptyBlock(w, s, now)
+	now := o.GenesisTime
+	// operations run on the committed state of the first modern height (chain.FirstModernHeight)
+	for n.Height < chain.FirstModernHeight {
+		now = now.Add(time.Minute)
+		emptyBlock(w, s, now)
+	}
 	ak := n.App.VerifAccountKeeper()
 	nk := n.App.VerifNodesKeeper()
 	t.Line("init", false, "init %s => %s", modsLine(n), bankdrv.DumpBank(n, n.Ctx()))
